@@ -80,6 +80,9 @@ func runC11(c *core.Ctx) {
 	// "both stop and close their channels after cancel" goes through the error hand-off too: a Try function that keeps
 	// failing keeps the stage in catch; the closed-world catch implementations must give up on cancellation
 	catchImplBlocking(c, "pipe")
+	// "skipping indices that fail under Try": Try / TryF build the kind that continues, Lift / Pure / LiftF the kind
+	// that stops
+	ctorKinds(c, "pipe")
 }
 
 func unfoldStep(c *core.Ctx, s *Stage) {
